@@ -7,6 +7,7 @@ pub mod c15;
 pub mod c17;
 pub mod c18;
 pub mod c19;
+pub mod c19_dap;
 pub mod c20;
 pub mod c20_model;
 
